@@ -56,6 +56,15 @@ func (e *Engine) info(fn *ssa.Function) *fnInfo {
 	return v.(*fnInfo)
 }
 
+// notInterpreted lists packages whose functions are never executed from SSA (reflection, runtime,
+// the file system ...). Calls return poison unless an intrinsic models them.
+var notInterpreted = map[string]bool{
+	"runtime": true, "reflect": true, "internal/reflectlite": true, "internal/abi": true, "internal/poll": true,
+	"internal/syscall/unix": true, "internal/godebug": true, "runtime/debug": true, "internal/testlog": true,
+	"gopkg.in/yaml.v3": true, "os/user": true, "internal/oserror": false, "internal/cpu": true, "internal/bisect": true,
+	"encoding/json": true, "internal/race": true, "internal/itoa": false,
+}
+
 type deferred struct {
 	fn   Value
 	args []Value
@@ -128,11 +137,24 @@ func (r *Run) posOf(in ssa.Instruction) string {
 // callFn calls an SSA function (or its intrinsic) with the given arguments.
 func (r *Run) callFn(fn *ssa.Function, args []Value, env []Value, caller *frame) Value {
 	fi := r.E.info(fn)
+	if r.initPhase && fn.Synthetic == "package initializer" && caller != nil {
+		// initialisers of imported packages: isolated, so that one failing package does not stop the rest
+		if fn.Pkg != nil && skipInit[fn.Pkg.Pkg.Path()] {
+			return nil
+		}
+		d := r.depth
+		r.E.runInit(r, fn)
+		r.depth = d
+		return nil
+	}
 	if fi.intrinsic != nil {
 		if r.res != nil {
 			r.res.Intrinsics[fi.name] = true
 		}
 		return fi.intrinsic(r, caller, fn, args)
+	}
+	if fn.Pkg != nil && notInterpreted[fn.Pkg.Pkg.Path()] {
+		return poisonResult(fn, "function of non-interpreted package: "+fi.name)
 	}
 	if fn.Blocks == nil {
 		if r.E.Cfg.PoisonExternals || r.initPhase {
